@@ -454,6 +454,9 @@ def np_call(ev, name, args, kwargs, node):
         root = storage_root(as_v(ev, A[0]))
         if root is not None:
             ev.event("inplace", how="overwrite_input=", root=root, target="arg0", node=node, value=A[0])
+    if name == "dtype" and len(A) == 1:
+        from .evalr import ExtV
+        return A[0] if isinstance(A[0], ExtV) else App("dtype", (as_v(ev, A[0]),))   # np.dtype(float) is float wherever a dtype is expected
     if name == "nan_to_num" and A:
         x0 = as_v(ev, A[0])
         if kwargs.get("copy") == Const(False):
